@@ -9,8 +9,9 @@
    result of the enclosing constraint (no substituted bound).  NOT proved: the lifting over the whole AST with an
    explicit `abstract_refs` (DESIGN.md C12_subst) and the load-order theorem; those are covered by the differential
    tie (ops 3302/3304) only.
-   Refuted (witnesses below): (0..MAX) folding depends on the 0 being a literal; a negative value used as SIZE wraps;
-   cyclic IMPORTS of an undefined name do not return. *)
+   Refuted (witnesses below): (0..MAX) folding depends on the 0 being a literal; SIZE(0..MAX, ...) is rejected only
+   when 0 and MAX are literals; cyclic IMPORTS of an undefined name do not return.
+   Repaired: a negative value used as SIZE wrapped to 2^64-|v| (fb434d2: now FailedToParseLiteral). *)
 From Coq Require Import String.
 From A1 Require Import Front.Resolve Front.ResolveProofs Extract.OpsParse.
 Local Open Scope N_scope.
@@ -21,7 +22,7 @@ Theorem C12_subst_bound_partial : forall scope model name v,
 Proof. exact subst_i64. Qed.
 
 Theorem C12_subst_size_bound_partial : forall scope model name v,
-  (0 <= v < 18446744073709551616)%Z ->
+  (0 <= v)%Z ->
   value_reference scope (lookup_fuel scope) model name = Found (LInteger v) ->
   resolve_usize scope model (Ref name) = resolve_usize scope model (Lit (Z.to_N v)).
 Proof. exact subst_usize. Qed.
@@ -45,6 +46,12 @@ Theorem C12_non_integer_is_error : forall scope model name l,
   resolve_i64 scope model (Ref name) = RErr (FailedToParseLiteral (name_prefix ++ name)) /\
   resolve_usize scope model (Ref name) = RErr (FailedToParseLiteral (name_prefix ++ name)).
 Proof. exact non_integer. Qed.
+
+Theorem C12_negative_size_is_error : forall scope model name v,
+  (v < 0)%Z ->
+  value_reference scope (lookup_fuel scope) model name = Found (LInteger v) ->
+  resolve_usize scope model (Ref name) = RErr (FailedToParseLiteral (name_prefix ++ name)).
+Proof. exact negative_usize. Qed.
 
 (* ---- witnesses, computed on the whole front-end model (tokenizer, parser, resolver) ---- *)
 
@@ -70,11 +77,19 @@ Example C12_refuted_reference_in_0_max_range_not_folded :
     = Some (TInteger (Some 0%Z, None, false) []).
 Proof. split; vm_compute; reflexivity. Qed.
 
-(* SIZE(neg) with neg = -1 resolves to SIZE(2^64-1); the literal -1 is rejected *)
-Example C12_refuted_negative_value_reference_as_size_wraps :
-  first_def "M DEFINITIONS ::= BEGIN A ::= OCTET STRING (SIZE(neg)) neg INTEGER ::= -1 END"
-    = Some (TOctetString (SFix 18446744073709551615 false)) /\
-  first_def "M DEFINITIONS ::= BEGIN A ::= OCTET STRING (SIZE(-1)) neg INTEGER ::= -1 END" = None.
+(* repaired (fb434d2 of /repo; before, SIZE(neg) with neg = -1 resolved to SIZE(2^64-1)): the reference to a
+   negative value is a resolve error, like the literal -1 *)
+Example C12_fixed_negative_size_reference_is_error :
+  first_def "M DEFINITIONS ::= BEGIN A ::= OCTET STRING (SIZE(neg)) neg INTEGER ::= -1 END" = None /\
+  first_def "M DEFINITIONS ::= BEGIN A ::= OCTET STRING (SIZE(-1)) neg INTEGER ::= -1 END" = None /\
+  op_3301 dev_mode (txt "M DEFINITIONS ::= BEGIN A ::= OCTET STRING (SIZE(neg)) neg INTEGER ::= -1 END")
+  = (1 :: 2 :: 2 :: 9 :: map Z.of_N (s2n "name: neg"))%Z.
+Proof. repeat split; vm_compute; reflexivity. Qed.
+
+Example C12_refuted_reference_in_size_0_max_extensible_accepted :
+  first_def "M DEFINITIONS ::= BEGIN A ::= OCTET STRING (SIZE(zero..MAX, ...)) zero INTEGER ::= 0 END"
+    = Some (TOctetString (SRange 0 9223372036854775807 true)) /\
+  first_def "M DEFINITIONS ::= BEGIN A ::= OCTET STRING (SIZE(0..MAX, ...)) zero INTEGER ::= 0 END" = None.
 Proof. split; vm_compute; reflexivity. Qed.
 
 (* two modules importing an undefined name from each other: the lookup does not return (process abort, `3 32`) *)
@@ -100,5 +115,7 @@ Print Assumptions C12_subst_default_partial.
 Print Assumptions C12_unresolved_is_error.
 Print Assumptions C12_non_integer_is_error.
 Print Assumptions C12_refuted_reference_in_0_max_range_not_folded.
-Print Assumptions C12_refuted_negative_value_reference_as_size_wraps.
+Print Assumptions C12_negative_size_is_error.
+Print Assumptions C12_fixed_negative_size_reference_is_error.
+Print Assumptions C12_refuted_reference_in_size_0_max_extensible_accepted.
 Print Assumptions C12_refuted_cyclic_import_diverges.
